@@ -186,10 +186,11 @@ class Model:
         self.installed.append(sp)
 
     def add_ili(self, ili_file):
-        for r in ili_file['rows']:
+        rows = [r for r in ili_file['rows'] if not r.get('blank')]
+        for r in rows:
             st = r.get('status', 'active') if 'status' in ili_file['columns'] else 'active'
             self.ili_statuses.add(st)
-        for r in ili_file['rows']:
+        for r in rows:
             st = r.get('status', 'active') if 'status' in ili_file['columns'] else 'active'
             df = r.get('definition', '') if 'definition' in ili_file['columns'] else None
             cur = self.ilis.get(r['ili'])
@@ -388,6 +389,7 @@ class Model:
             'extends': self.idx[sp].base,
             'extensions': SetOf(self.extensions_of(sp, depth=1)),
             'extensions_all': SetOf(self.extensions_of(sp, depth=-1)),
+            'modified': False,      # nothing in the library modifies an installed lexicon
         }
 
     def _exts_in(self, sp, scope):
